@@ -8,6 +8,7 @@ import (
 	"net/http"
 	"strings"
 	"sync"
+	"sync/atomic"
 	"time"
 
 	"github.com/notaryproject/notation-core-go/revocation"
@@ -160,9 +161,10 @@ type Outcome struct {
 	Log      []netsim.Event
 	Fetches  []FetchCall
 	CacheOps []CacheOp
-	OpenRT   int // RoundTrips still open after return
-	OpenBody int // response bodies still unclosed after return
-	BadReqs  int // OCSP requests that did not name the right certificate
+	OpenRT   int  // RoundTrips still open after return
+	OpenBody int  // response bodies still unclosed after return
+	Stuck    bool // the call had not returned when the watchdog fired (nothing else is valid then)
+	BadReqs  int  // OCSP requests that did not name the right certificate
 }
 
 // Env is the prepared environment of a scenario (so that callers can add
@@ -280,7 +282,63 @@ func (env *Env) Run(ctx context.Context) *Outcome {
 		bad0 += k.BadRequests
 		k.mu.Unlock()
 	}
-	out.Panic = core.Guard(func() {
+	// the call runs on a goroutine of its own so that a call that never returns
+	// ends this execution (as Stuck) instead of the whole check
+	var results []*result.CertRevocationResult
+	var rerr error
+	done := make(chan *core.PanicInfo, 1)
+	go func() {
+		done <- core.Guard(func() { results, rerr = env.call(ctx, client, pur, st) })
+	}()
+	select {
+	case p := <-done:
+		out.Panic, out.Results, out.Err = p, results, rerr
+	case <-time.After(watchdog()):
+		out.Stuck = true
+		stuckCalls.Add(1)
+	}
+	out.Log = env.Net.Log()
+	out.OpenRT = env.Net.Open()
+	out.OpenBody = env.Net.OpenBodies()
+	if env.Fetcher != nil {
+		out.Fetches = env.Fetcher.Log()
+	}
+	if env.Cache != nil {
+		out.CacheOps = env.Cache.Log()
+	}
+	for _, k := range env.kits {
+		k.mu.Lock()
+		out.BadReqs += k.BadRequests
+		k.mu.Unlock()
+	}
+	out.BadReqs -= bad0
+	return out
+}
+
+// Watchdog bounds one library call in wall-clock time; its firing is never a
+// verdict on the property being checked (except where returning IS the
+// property), only the end of that execution.
+var Watchdog = 3 * time.Minute
+
+var stuckCalls atomic.Int64
+
+// watchdog shortens itself once several calls have hung: the run is then
+// inconclusive anyway and need not take hours to say so.
+func watchdog() time.Duration {
+	if stuckCalls.Load() >= 3 {
+		return 2 * time.Second
+	}
+	return Watchdog
+}
+
+func (env *Env) call(ctx context.Context, client *http.Client, pur purpose.Purpose, st time.Time) (results []*result.CertRevocationResult, rerr error) {
+	sc := env.Sc
+	out := &struct {
+		Results []*result.CertRevocationResult
+		Err     error
+	}{}
+	defer func() { results, rerr = out.Results, out.Err }()
+	{
 		switch sc.Entry {
 		case "ocsp":
 			out.Results, out.Err = rocsp.CheckStatus(rocsp.Options{CertChain: env.Chain, CertChainPurpose: pur, SigningTime: st, HTTPClient: client})
@@ -322,23 +380,8 @@ func (env *Env) Run(ctx context.Context) *Outcome {
 			env.v = v
 			out.Results, out.Err = v.ValidateContext(ctx, revocation.ValidateContextOptions{CertChain: env.Chain, AuthenticSigningTime: st})
 		}
-	})
-	out.Log = env.Net.Log()
-	out.OpenRT = env.Net.Open()
-	out.OpenBody = env.Net.OpenBodies()
-	if env.Fetcher != nil {
-		out.Fetches = env.Fetcher.Log()
 	}
-	if env.Cache != nil {
-		out.CacheOps = env.Cache.Log()
-	}
-	for _, k := range env.kits {
-		k.mu.Lock()
-		out.BadReqs += k.BadRequests
-		k.mu.Unlock()
-	}
-	out.BadReqs -= bad0
-	return out
+	return
 }
 
 // Run prepares and executes the scenario with a background context.
